@@ -552,6 +552,9 @@ fn explore_grid(ctx: &Ctx, alpha: &Alphabet, g: &Grid, depth: usize, lost: bool,
                         );
                     }
                     if let Some(k) = key {
+                        if hist.len() == 2 && h[0] % 97 == 5 && h[1] % 89 == 7 {
+                            samples.force(history_json(g, &surfs, &hist));
+                        }
                         samples.offer(k as u64, || history_json(g, &surfs, &hist));
                     }
                     key
